@@ -501,6 +501,84 @@ def gen_unit(rng, depth=2):
             [gen_pred(rng, depth) for _ in range(rng.randint(0, 2))], [gen_stmt(rng, depth) for _ in range(rng.randint(0, 4))])
 
 
+def gen_mixed_disj(rng, depth, in_method=False):
+    """a disjunction in which some disjuncts carry a cost and others do not: `{..} [2] or {..} or {..} [3]`
+    (every disjunct owns its own cost or none; all patterns of 2..5 disjuncts that are neither all-cost nor no-cost)"""
+    n = rng.choice([2, 2, 3, 3, 4, 5])
+    while True:
+        mask = [rng.random() < 0.5 for _ in range(n)]
+        if any(mask) and not all(mask):
+            break
+    return ("disj", [([gen_stmt(rng, max(depth - 1, 0), in_method) for _ in range(rng.randint(0, 2))],
+                      gen_expr(rng, rng.choice([0, 1, 1, 2])) if m else None) for m in mask])
+
+
+def gen_mixed_unit(rng):
+    """a unit whose statement lists (top level, bodies of methods / predicates / constructors, nested blocks and
+    disjuncts) contain mixed-cost disjunctions"""
+    def body(in_method=False):
+        out = []
+        for _ in range(rng.randint(1, 3)):
+            c = rng.random()
+            if c < 0.6:
+                out.append(gen_mixed_disj(rng, 2, in_method))
+            elif c < 0.75:
+                out.append(("block", [gen_mixed_disj(rng, 1, in_method)]))
+            elif c < 0.9:
+                out.append(("disj", [([gen_mixed_disj(rng, 1, in_method)], None), ([gen_mixed_disj(rng, 1, in_method)], ("int", "1"))]))
+            else:
+                out.append(gen_stmt(rng, 1, in_method))
+        return out
+    types, methods, preds = [], [], []
+    c = rng.random()
+    if c < 0.3:
+        types.append(("class", gen_ident(rng), [], [], [("ctor", gen_params(rng), [], body())],
+                      [("method", [], gen_ident(rng), [], body(True))], [("predicate", gen_ident(rng), [], [], body())], []))
+    elif c < 0.5:
+        methods.append(("method", gen_type(rng), gen_ident(rng), gen_params(rng), body(True)))
+    elif c < 0.7:
+        preds.append(("predicate", gen_ident(rng), gen_params(rng), [], body()))
+    return ("cu", types, methods, preds, body())
+
+
+def disj_cost_patterns(u):
+    """-> (number of disjunctions, number with mixed costs, number where a disjunct WITHOUT a cost follows one WITH a cost)"""
+    cnt = [0, 0, 0]
+
+    def stmts(ss):
+        for s in ss:
+            if s[0] == "disj":
+                cnt[0] += 1
+                has = [c is not None for _, c in s[1]]
+                if any(has) and not all(has):
+                    cnt[1] += 1
+                if any(a and not b for a, b in zip(has, has[1:])):
+                    cnt[2] += 1
+                for b, _ in s[1]:
+                    stmts(b)
+            elif s[0] == "block":
+                stmts(s[1])
+
+    def tdecl(t):
+        if t[0] == "class":
+            for c in t[4]:
+                stmts(c[3])
+            for m in t[5]:
+                stmts(m[4])
+            for p in t[6]:
+                stmts(p[4])
+            for x in t[7]:
+                tdecl(x)
+    for t in u[1]:
+        tdecl(t)
+    for m in u[2]:
+        stmts(m[4])
+    for p in u[3]:
+        stmts(p[4])
+    stmts(u[4])
+    return tuple(cnt)
+
+
 def sx_unit(u):
     return "(cu (types%s) (methods%s) (preds%s) (stmts%s))" % (
         "".join(" " + sx_type_decl(t) for t in u[1]), "".join(" " + sx_method(m) for m in u[2]),
